@@ -227,6 +227,13 @@ func genMapB(rng *sim.Rng, tier string) *ScenarioB {
 		sc.Ops = append(sc.Ops, Op{K: "idrain", It: stack[len(stack)-1]})
 		stack = stack[:len(stack)-1]
 	}
+	if kt == "iface" {
+		// every kind of operation with an unhashable dynamic key, in every history of
+		// this key kind (they leave the map as it is)
+		for _, k := range []string{"setbad", "getbad", "delbad", "get1bad"} {
+			sc.Ops = append(sc.Ops, Op{K: k, Key: rng.Intn(6)})
+		}
+	}
 	sc.Ops = append(sc.Ops, Op{K: "len"})
 	return sc
 }
